@@ -517,6 +517,8 @@ impl Session {
                         }
                         match outcome.as_str() {
                             "error" => Err(AxError::from("scripted hook error").into()),
+                            // an error whose text is empty is still an error
+                            "errorempty" => Err("".into()),
                             "stoperror" => {
                                 ax.stop();
                                 Err(AxError::from("scripted hook error after stop").into())
